@@ -421,6 +421,7 @@ class RecordModel(object):
     """How SignatureVerification.add_sigsubj builds a record: namedtuple fields (by position / keyword) <- the caller's values
     (by parameter position), and the collection the record is added to."""
     def __init__(self, prog):
+        self.prog = prog
         self.ci = prog.cls('pgpy.types', 'SignatureVerification')
         self.f = prog.method('pgpy.types', 'SignatureVerification', 'add_sigsubj')
         p = self.f.params
@@ -440,7 +441,7 @@ class RecordModel(object):
         for given in (False, True):
             args = {n: Sym('<%s>' % r, nonnull=True) for n, r in zip(self.params, ROLES)}
             if not given:
-                args[self.params[3]] = Const(None)
+                args[self.params[3]] = self._declared_default(self.params[3])
             for s in Interp(prog, Scenario(args=args, inline=noinline)).run(self.f):
                 if s.raised is not None:
                     continue
@@ -452,6 +453,25 @@ class RecordModel(object):
         self.fields = None
         for k, fl in self.tuples.items():
             self.fields = fl if self.fields is None else self.fields
+
+    def _declared_default(self, name):
+        """The value a caller that passes no verdict gets: the parameter's declared default (not assumed to be None)."""
+        a = self.f.node.args
+        pos = [x.arg for x in a.args]
+        dflt = dict(zip(pos[len(pos) - len(a.defaults):], a.defaults))
+        for x, d in zip(a.kwonlyargs, a.kw_defaults):
+            if d is not None:
+                dflt[x.arg] = d
+        if name not in dflt:
+            raise AnalysisError('add_sigsubj: the verdict parameter has no default any more')
+        try:
+            return Const(ast.literal_eval(dflt[name]))
+        except Exception:
+            v = predicate(self.prog).fn
+            try:
+                return Const(int(v.ev(dflt[name], {}, self.f)))
+            except Exception:
+                raise AnalysisError('add_sigsubj: default of the verdict parameter is not a constant: %s' % ast.unparse(dflt[name]))
 
     def _record_of(self, s, selfname):
         recs = [c for c in s.calls if c[0].startswith(selfname + '.') and c[0][len(selfname) + 1:] in self.tuples]
@@ -616,6 +636,236 @@ def _bool_row(prog, f, row, M):
     return False not in inloop
 
 
+
+# ---- concrete evaluation of the selectors on small record lists (checker-side, finite: lists of 0, 1, 2 records over the rows)
+class _Rec(object):
+    """A record whose verdict field is a concrete flag value."""
+    def __init__(self, value, ident):
+        self.value, self.ident, self.issues = value, ident, Flag(value)
+
+
+class _Gen(tuple):
+    """Result of a generator selector: iterable once is not modelled, but a generator object is always truthy."""
+    def __bool__(self):
+        return True
+
+
+class _SelfObj(object):
+    pass
+
+
+class RecFn(FlagFn):
+    """Evaluates SignatureVerification selectors / __bool__ on a concrete list of records (one per truth-table row)."""
+    def __init__(self, prog, M, P):
+        FlagFn.__init__(self, prog, P.ci, P.mem)
+        self.M = M
+        self.P = P
+        self.sv = M.ci
+        self.collattr = M.coll.split('.', 1)[1] if '.' in M.coll else None
+        self.records = []
+        self.ys = None
+        self.SELF = _SelfObj()
+        self.fallback = {}          # selector name -> row table decided by the interpreter (used when its body is outside this language)
+
+    def run(self, f, records):
+        self.records = list(records)
+        return self.method(f)
+
+    def method(self, f):
+        if self.depth > 4:
+            raise _Unknown('recursion')
+        is_gen = any(isinstance(n, (ast.Yield, ast.YieldFrom)) for n in ast.walk(f.node))
+        saved, self.ys = self.ys, []
+        self.depth += 1
+        ret = None
+        try:
+            try:
+                self.block(f.node.body, {f.params[0]: self.SELF}, f)
+            except _Return as r:
+                ret = r.v
+            return _Gen(self.ys) if is_gen else ret
+        finally:
+            self.depth -= 1
+            self.ys = saved
+
+    def selector(self, name):
+        g = self.sv.find_method(name)
+        if g is None:
+            raise _Unknown('attribute %s' % name)
+        try:
+            return self.method(g)
+        except _Unknown:
+            if name in self.fallback:
+                return _Gen(r for r in self.records if self.fallback[name][_row_of(self.P, r.value)] is True)
+            raise
+
+    def ev(self, n, env, f):
+        if isinstance(n, ast.Yield):
+            self.ys.append(self.ev(n.value, env, f) if n.value is not None else None)
+            return None
+        if isinstance(n, ast.YieldFrom):
+            self.ys.extend(self.iterable(self.ev(n.value, env, f)))
+            return None
+        if isinstance(n, ast.Attribute):
+            d = dotted(n)
+            if not (d is not None and d.split('.')[-2:-1] == [self.ci.name]):
+                base = self.ev(n.value, env, f)
+                if base is self.SELF:
+                    if n.attr == self.collattr:
+                        return self.records
+                    g = self.sv.find_method(n.attr)
+                    if g is not None and any(dotted(x) == 'property' for x in g.node.decorator_list):
+                        return self.selector(n.attr)
+                    raise _Unknown('attribute self.%s' % n.attr)
+                if isinstance(base, _Rec):
+                    if n.attr == 'issues':
+                        return base.issues
+                    raise _Unknown('record field %s' % n.attr)
+        if isinstance(n, ast.Subscript):
+            base = self.ev(n.value, env, f)
+            if isinstance(base, _Rec):
+                idx = self.ev(n.slice, env, f) if not isinstance(n.slice, ast.Slice) else None
+                if self.M.fields and isinstance(idx, int) and 0 <= idx < len(self.M.fields) and self.M.fields[idx] == 'issues':
+                    return base.issues
+                raise _Unknown('record index')
+            if isinstance(base, (list, tuple)):
+                if isinstance(n.slice, ast.Slice):
+                    lo, hi, stp = [self.ev(x, env, f) if x is not None else None for x in (n.slice.lower, n.slice.upper, n.slice.step)]
+                    if all(x is None or (isinstance(x, int) and not isinstance(x, bool)) for x in (lo, hi, stp)):
+                        return list(base)[lo:hi:stp]
+                else:
+                    idx = self.ev(n.slice, env, f)
+                    if isinstance(idx, int) and not isinstance(idx, bool) and -len(base) <= idx < len(base):
+                        return list(base)[idx]
+            raise _Unknown(ast.unparse(n))
+        if isinstance(n, ast.Call) and not n.keywords:
+            fn = dotted(n.func)
+            if fn == 'next' and len(n.args) in (1, 2):
+                it = self.iterable(self.ev(n.args[0], env, f))
+                if it:
+                    return it[0]
+                if len(n.args) == 2:
+                    return self.ev(n.args[1], env, f)
+                raise _Unknown('next() of an empty iterator')
+            if fn == 'iter' and len(n.args) == 1:
+                return _Gen(self.iterable(self.ev(n.args[0], env, f)))
+            if fn == 'list' and len(n.args) == 1:
+                return list(self.iterable(self.ev(n.args[0], env, f)))
+            if fn == 'len' and len(n.args) == 1:
+                v = self.ev(n.args[0], env, f)
+                if isinstance(v, _Gen):
+                    raise _Unknown('len() of a generator')
+                return len(self.iterable(v))
+            if fn == 'sum' and len(n.args) == 1:
+                vals = self.iterable(self.ev(n.args[0], env, f))
+                if all(isinstance(v, int) for v in vals):
+                    return sum(int(v) for v in vals)
+                raise _Unknown('sum of non-integers')
+            if isinstance(n.func, ast.Attribute) and not n.args and self.ev(n.func.value, env, f) is self.SELF:
+                g = self.sv.find_method(n.func.attr)
+                if g is not None and not any(dotted(x) == 'property' for x in g.node.decorator_list) and len(g.params) == 1:
+                    return self.method(g)
+                raise _Unknown('call %s' % ast.unparse(n))
+        return FlagFn.ev(self, n, env, f)
+
+    def iterable(self, v):
+        if isinstance(v, list):
+            return list(v)
+        return FlagFn.iterable(self, v)
+
+
+def _values(P):
+    """Representative verdict values: OK, advisory-only sets, disqualifying sets (alone and with an advisory member)."""
+    adv = [b for b in P.bits if not P(b)]
+    dis = [b for b in P.bits if P(b)]
+    vals = [0]
+    if adv:
+        vals.append(adv[0])
+    if len(adv) > 1:
+        vals.append(adv[0] | adv[-1])
+    if dis:
+        vals.append(dis[0])
+    if len(dis) > 1:
+        vals.append(dis[-1])
+    if dis and adv:
+        vals.append(dis[len(dis) // 2] | adv[0])
+    return vals
+
+
+def _row_of(P, v):
+    I, F = bool(v), P(v)
+    for i, r in enumerate(ROWS):
+        if r['I'] == I and r['F'] == F:
+            return i
+    raise AnalysisError('the verdict predicate holds for the empty issue set')
+
+
+def _record_lists(P):
+    vals = _values(P)
+    return [()] + [(a,) for a in vals] + [(a, b) for a in vals for b in vals]
+
+
+def _listname(P, L):
+    return '[%s]' % ', '.join(P.name(v) for v in L)
+
+
+def _concrete_selector(E, P, f):
+    """Row table of a selector from its concrete results on every record list of size <= 2 over representative verdict values;
+    ('partial', why) when the listing of a record depends on anything but its row.  _Unknown when the body is outside the
+    evaluator's language."""
+    tbl = [None] * len(ROWS)
+    res = {}
+    for L in _record_lists(P):
+        recs = [_Rec(v, i) for i, v in enumerate(L)]
+        out = E.run(f, recs)
+        if out is None or not isinstance(out, (tuple, list)):
+            raise _Unknown('selector result %r' % (out,))
+        ids = []
+        for x in out:
+            if not isinstance(x, _Rec):
+                raise _Unknown('selector yields %r' % (x,))
+            ids.append(x.ident)
+        res[L] = ids
+        if len(L) == 1:
+            if ids not in ([], [0]):
+                return [('partial', 'a single record is listed %d times' % len(ids))] * len(ROWS)
+            r = _row_of(P, L[0])
+            if tbl[r] is not None and tbl[r] != (ids == [0]):
+                return [('partial', 'records of the row "%s" are not treated alike (%s)' % (ROWNAME[r], P.name(L[0])))] * len(ROWS)
+            tbl[r] = ids == [0]
+    for L, ids in res.items():
+        want = [i for i, v in enumerate(L) if tbl[_row_of(P, v)]]
+        if sorted(ids) != want:
+            return [('partial', 'of the records %s the entries %s are listed' % (_listname(P, L), ids))] * len(ROWS)
+    if any(t is None for t in tbl):
+        raise _Unknown('a row has no representative value')
+    return tbl
+
+
+def _concrete_bool(E, P, f):
+    """Per-row effect of a record on truthiness from the concrete results on every record list of size <= 2; ('any', why) when
+    the result is not the conjunction of the per-record results (or the empty result is falsy)."""
+    res = {}
+    for L in _record_lists(P):
+        v = E.run(f, [_Rec(x, i) for i, x in enumerate(L)])
+        if isinstance(v, _Rec) or v is None:
+            raise _Unknown('truth value %r' % (v,))
+        res[L] = bool(v)
+    tbl = [None] * len(ROWS)
+    for L in res:
+        if len(L) == 1:
+            r = _row_of(P, L[0])
+            if tbl[r] is not None and tbl[r] != res[L]:
+                return [('any', 'records of the row "%s" are not treated alike (%s)' % (ROWNAME[r], P.name(L[0])))] * len(ROWS)
+            tbl[r] = res[L]
+    if any(t is None for t in tbl):
+        raise _Unknown('a row has no representative value')
+    for L in sorted(res, key=len):
+        if res[L] != all(tbl[_row_of(P, v)] for v in L):
+            return [('any', 'records %s -> %s' % (_listname(P, L), res[L]))] * len(ROWS)
+    return tbl
+
+
 def check_partition(rep, prog, rid):
     M = record_model(prog)
     ci = M.ci
@@ -626,10 +876,24 @@ def check_partition(rep, prog, rid):
             raise AnalysisError('SignatureVerification.%s vanished' % name)
         rep.saw(fn=f)
         fs[name] = f
-    good = [_selected(prog, fs['good_signatures'], r, M) for r in ROWS]
-    bad = [_selected(prog, fs['bad_signatures'], r, M) for r in ROWS]
-    bl = [_bool_row(prog, fs['__bool__'], r, M) for r in ROWS]
-    rep.analysed['paths'] += 3 * len(ROWS)
+    # concrete evaluation on all record lists of size 0, 1, 2 first (also understands selectors defined through one another:
+    # next(self.good_signatures, None), not list(self.bad_signatures), ...); the interpreter rows where the body is outside
+    # the evaluator's small language
+    P = predicate(prog)
+    E = RecFn(prog, M, P)
+    tables = {}
+    for name in ('good_signatures', 'bad_signatures'):
+        try:
+            tables[name] = _concrete_selector(E, P, fs[name])
+        except _Unknown:
+            tables[name] = [_selected(prog, fs[name], r, M) for r in ROWS]
+        E.fallback[name] = tables[name]
+    good, bad = tables['good_signatures'], tables['bad_signatures']
+    try:
+        bl = _concrete_bool(E, P, fs['__bool__'])
+    except _Unknown:
+        bl = [_bool_row(prog, fs['__bool__'], r, M) for r in ROWS]
+    rep.analysed['paths'] += 3 * len(_record_lists(P))
     for name, tbl in (('good_signatures', good), ('bad_signatures', bad)):
         part = [x for x in tbl if isinstance(x, tuple)]
         rep.check(not part, rid, 'SignatureVerification.%s' % name, 'records examined',
@@ -736,11 +1000,12 @@ def loop_pair(fi, s):
 
 
 def bit_tree(text):
-    """Parse a rendered flag expression into ('|', [..]) ('&', [..]) ('~', x) ('leaf', text); None when it is not one."""
+    """Parse a rendered flag expression into ('|', [..]) ('&', [..]) ('or', [..]) ('and', [..]) ('~', x) ('leaf', text);
+    None when it is not one."""
     t = text.strip()
     while t.startswith('(') and t.endswith(')') and _balanced(t[1:-1]):
         t = t[1:-1].strip()
-    for op in ('|', '&'):
+    for op in ('or', 'and', '|', '&'):
         parts = _split_top(t, ' %s ' % op)
         if len(parts) > 1:
             subs = [bit_tree(p) for p in parts]
@@ -819,6 +1084,8 @@ def contributions(P, text):
         if n[0] == '~':
             v = const(n[1])
             return None if v is None else ~v
+        if n[0] in ('or', 'and'):
+            return None
         vals = [const(x) for x in n[1]]
         if any(v is None for v in vals):
             return None
@@ -834,8 +1101,21 @@ def contributions(P, text):
         if n[0] == 'leaf':
             k = source_of(n[1])
             if k is None:
+                if re.match(r'^self(\.[A-Za-z_]\w*)+$', n[1]):
+                    # an attribute of the key object: a value stored earlier, not the key's conditions at this verification
+                    problems.append('operand %s is stored state, not computed for this verification' % n[1])
+                    return {}, 0
                 raise AnalysisError('issue set has an operand that is neither an issue source nor a constant: %s' % n[1])
             return {k: allbits}, 0
+        if n[0] in ('or', 'and'):
+            # boolean short-circuit keeps ONE operand: the others are dropped depending on truthiness
+            problems.append('operands are combined with `%s` (short-circuit keeps one of them), not united with |' % n[0])
+            out = {}
+            for x in n[1]:
+                if const(x) is None:
+                    for k in rec(x)[0]:
+                        out[k] = 0
+            return out, 0
         if n[0] == '~':
             raise AnalysisError('issue set complements a non-constant: %s' % text)
         if n[0] == '|':
@@ -866,6 +1146,13 @@ def contributions(P, text):
     return src, cb, problems, allbits
 
 
+class _Asked(list):
+    """Issue-set texts the predicate was asked of; .truth: issue-set texts whose truthiness was tested."""
+    def __init__(self):
+        list.__init__(self)
+        self.truth = []
+
+
 def run_verify(prog, detached=False, I=None, F=None, V=None, subject_type=None):
     """Interpret PGPKey.verify with the atoms pinned: I issue set truthy, F predicate of the issue set, V library verdict truthy
     (None = explore both).  Returns (fi, paths, texts the predicate was asked of)."""
@@ -873,7 +1160,7 @@ def run_verify(prog, detached=False, I=None, F=None, V=None, subject_type=None):
     p = fi.params
     if len(p) < 3:
         raise AnalysisError('PGPKey.verify no longer takes (subject, signature)')
-    asked = []
+    asked = _Asked()
 
     def oracle(t):
         if t.startswith('self._key.verify(') and _balanced(t[len('self._key.verify('):-1]) and t.endswith(')'):
@@ -886,6 +1173,8 @@ def run_verify(prog, detached=False, I=None, F=None, V=None, subject_type=None):
                 return F
             return None
         if is_issue_set(t):
+            if t not in asked.truth:
+                asked.truth.append(t)
             return I
         return None
     if detached:
